@@ -32,6 +32,9 @@ import XzVerif.Model.Lzip
 import XzVerif.Model.Auto
 import XzVerif.Model.FileInfo
 import XzVerif.Model.Simple
+import XzVerif.Model.XzConcat
+import XzVerif.Lemmas.C04CheckedTop
+import XzVerif.Lemmas.C04Fuel
 
 namespace XzVerif.C04
 open XzVerif XzVerif.C04Sym
@@ -88,7 +91,13 @@ theorem gen_literal_table : Gen.C04.litTable = litTableModel := by
 theorem gen_dist_state : Gen.C04.distStateTable = (List.range 272).map (fun i => Lzma.getDistState (i + 2)) := by
   decide +kernel
 
-/-! ## Probability-array indices -/
+/-! ## Probability-array indices
+
+  The theorems of this section are inequalities between the CLOSED FORMULAS of the index expressions (bridged to the real
+  macros by `gen_literal_table`, `gen_dist_state` and the index grid of the check). That the EXECUTABLE decoder model,
+  which indexes its arrays with totalised accessors (`getD`, `setIfInBounds`, `get!`), only ever computes indices that
+  satisfy them — on every input — is `decoder_accesses_in_bounds` (section "Array accesses of the executable decoder
+  models" below). -/
 
 /-- `literal_subcoder(coder->literal, lc, literal_mask, dict.pos, dict_get0(&dict))[sub]`: for lc + lp ≤ 4, EVERY
     position and previous byte, and every node `sub < 0x300` of the sub-coder (plain: 1..0xFF; matched: 0x100 + …,
@@ -209,7 +218,8 @@ theorem range_model_is_rangedec (rc : RangeDec.Rc) (p : Nat) (inp rest : List UI
     Proof (Lemmas/C04Walk.lean): a walk through the monadic code of `decodeSymbol` showing that the bits it decodes form one of
     the 203 `symbolShapes`, that range and cursor evolve exactly as `runR` says, and that every probability used is in
     [31, 2017] — or is the 0 that the MODEL reads for an index outside its array, for which `rc_bit` decodes 1 and leaves the
-    range unchanged (no such index exists for valid lc/lp/pb: Props/C03 `prob_indices_in_bounds`); then `in_required_20`'s
+    range unchanged (this theorem makes no assumption on lc/lp/pb, so it has to cover that case; from the states a decoder
+    actually reaches no index is ever outside its array: `decoder_accesses_in_bounds` below); then `in_required_20`'s
     budget argument (`symbol_shapes_ok`). No assumption on lc/lp/pb, state, dictionary or input.
     (The end-of-payload marker's final normalisation is excluded exactly as in the C code, which leaves the fast loop for
     it — `goto eopm`: that path does not return normally from `decodeSymbol`.) -/
@@ -251,7 +261,11 @@ example : (List.replicate 18 P ++ List.replicate 26 D ++ List.replicate 4 P) ∈
 example : (runR 253952 ((List.replicate 18 ({ kind := .prob, p := 31 } : Op)) ++ List.replicate 26 { kind := .direct }
             ++ List.replicate 4 { kind := .prob, p := 31 })).2 = 20 := by decide +kernel
 
-/-! ## Dictionary indices (lemmas of Lemmas/C03Dict.lean over Model/LzDict.lean, restated with the source's constants) -/
+/-! ## Dictionary indices (lemmas of Lemmas/C03Dict.lean over Model/LzDict.lean, restated with the source's constants)
+
+  Closed-formula level: GIVEN `PosInv` and `distance < dict.full`. That every `dict_get` / `dict_repeat` / `dict_put` /
+  `dict_write` of a decoding run happens in such a state — and that the index expressions below are then inside the
+  buffer at each of these calls — is part of `decoder_accesses_in_bounds`. -/
 
 /-- Under the position invariant `PosInv` every index the LZ decoder computes is inside the allocation of
     `size + LZ_DICT_EXTRA` bytes: `dict_get` / `dict_get0` (below `size`), `dict_repeat` (reads `back + i`, writes
@@ -288,6 +302,109 @@ theorem dict_inv_preserved :
 example : LzDict.PosInv { pos := 300, full := 4096, limit := 400, size := 4672, hasWrapped := true, needReset := false } :=
   { size_ge := by decide, pos_le_limit := by decide, limit_le_size := by decide, full_le := by decide,
     not_wrapped := (by intro h; cases h), wrapped := (by intro _; decide) }
+
+/-! ## Array accesses of the executable decoder models (audit finding F-05)
+
+  Model/Lzma.lean and Model/Lzma2.lean — the functions the drivers run — index their arrays with TOTALISED accessors:
+  `probs.getD idx 0` / `probs.setIfInBounds idx p` (`rcBit`), `hist.get! i` behind `if distance < hist.size … else 0`
+  (`dictGet`, `copyBytes`), `if h : off < src.size then src[off] else 0` (`appendSlice`, the input byte of `lzma2Loop`).
+  Lemmas/C04Checked.lean defines INSTRUMENTED variants (`rcBitC`, `dictGetC`, `dictGet0C`, `putC`, `copyBytesC`,
+  `repeatNC`, `decodeSymbolC`, `doWriteC`, `lzmaCallC`, `decodeBufferC`, `dictWriteC`, `lzma2LoopC`, `Coder.codeC`,
+  `lzmaDecodeC`, `lzma2DecodeC`, `rawDecodeC`): the same programs statement by statement, but every array access goes through
+  the PARTIAL accessor `a[i]'h` / `a.set i v h` (Lean demands `h : i < a.size`), and where no run-time test supplies `h` the
+  variant stops with the distinguished outcome `oob` (`none` at call level). The dictionary operations additionally test,
+  at every call, the precondition `distance < dict.full` and the C-LEVEL INDEX EXPRESSIONS of lz_decoder.h against the
+  buffer size — `dict_get`: `getIndex distance < size`; `dict_get0`: `1 ≤ pos ∧ pos − 1 < size`; `dict_put`: `pos < size`;
+  `dict_repeat`: `back + left ≤ size ∧ pos + left ≤ size`; `dict_write`: `pos + n ≤ size` — i.e. the expressions that
+  `LzDict.Dict.get/get0/put/repeat/write` hand to `getD`/`setIfInBounds` (the executable decoders keep the produced bytes in
+  a growing history instead of the cyclic buffer, so these expressions would otherwise not occur in a run).
+
+  The theorems say: on EVERY input the checked function returns `some` of exactly what the executable function returns.
+  Hence no access is out of bounds, no totalised default is ever taken, and the instrumentation changes nothing.
+  Proof (Lemmas/C04Checked{Rc,Sym,Call,Lz,L2,Top}.lean): a simulation logic `Sim` between the two monads; a walk through
+  `decodeSymbol` discharging every probability index by the layout lemmas (`probsSize lc lp`, lc + lp ≤ 4, pb ≤ 4,
+  state < 12; bit-tree nodes by induction) and every dictionary read by `RepsOk` + `dict.full ≤ |history|` + `PosInv`
+  (`getIndex_lt`, `get0_lt`, `repeat_bounds` of Lemmas/C03Dict.lean; match lengths ≤ MATCH_LEN_MAX are carried along);
+  preservation of the access invariant `Live` through the output step, the main loop, `lzma_decode`, `decode_buffer`;
+  for LZMA2 a sequence-aware invariant `A2` next to `L2R` of Props/C03 `reps_invariant_lzma2`. -/
+
+/-- ONE SYMBOL and ONE CALL of `lzma_decode`. From every state satisfying the access invariant
+    (`Lzma.Live`: probability array of size `probsSize lc lp` with lc + lp ≤ 4, pb ≤ 4, state < 12; `dict.full ≤` bytes in
+    the history; `RepsOk`; `PosInv`) the checked symbol decoder yields exactly the outcome of `decodeSymbol` — normal or
+    exit, never `oob` — and a normal return re-establishes the invariant together with what its output step needs
+    (`WriteOk`: `rep0 < dict.full` for SEQ_SHORTREP/SEQ_COPY, copy length ≤ MATCH_LEN_MAX). From every state satisfying
+    `AccSt` (stuck for good, or `Live` with a well-formed pending output step) the checked `lzma_decode` call is the
+    executable call, and `AccSt` holds again afterwards unless the call returned LZMA_STREAM_END (an accepted
+    end-of-payload marker leaves `rep0 = UINT32_MAX`; `lzma_code` never calls the coder again then) — and in the LZMA2
+    chunk configuration `NoEopm`, where no marker can be accepted, in every case. -/
+theorem symbol_decoder_accesses_in_bounds :
+    (∀ (ev : Bool) (s : Lzma.St), Lzma.Live s →
+        Lzma.decodeSymbolC ev s = Lzma.liftR (Lzma.decodeSymbol ev s)
+        ∧ ∀ act s', Lzma.decodeSymbol ev s = .ok act s' → Lzma.Live s' ∧ Lzma.WriteOk act s')
+    ∧ (∀ (p : Lzma.Pending) (s : Lzma.St), Lzma.Live s → Lzma.WriteOk p s →
+        Lzma.doWriteC p s = Lzma.liftR (Lzma.doWrite p s))
+    ∧ (∀ s : Lzma.St, Lzma.AccSt s →
+        Lzma.lzmaCallC s = some (Lzma.lzmaCall s)
+        ∧ ((Lzma.lzmaCall s).1 ≠ .streamEnd → Lzma.AccSt (Lzma.lzmaCall s).2)
+        ∧ (Lzma.NoEopm s → Lzma.AccSt (Lzma.lzmaCall s).2)) :=
+  ⟨fun ev s h => ⟨(Lzma.decodeSymbol_acc ev s h).1, fun act s' e =>
+      ⟨((Lzma.decodeSymbol_acc ev s h).2 act s' e).1, ((Lzma.decodeSymbol_acc ev s h).2 act s' e).2.1⟩⟩,
+   fun p s h hw => (Lzma.doWrite_acc p s h hw).1,
+   fun s h => ⟨(Lzma.lzmaCall_acc s h).1, (Lzma.lzmaCall_acc s h).2.1, (Lzma.lzmaCall_acc s h).2.2.1⟩⟩
+
+/-- EVERY ARRAY ACCESS PERFORMED BY THE EXECUTABLE DECODER MODELS IS WITHIN THE ARRAY, ON EVERY INPUT.
+    (1) `lzmaDecode` (LZMA1 as used by the .lzma / .lz / raw decoders) for every VALID lc/lp/pb — `lzma_decoder_init`,
+        `lzma_lzma_lclppb_decode` and the .lz header decoder refuse the others before a decoder exists —, every dictionary
+        size, known or unknown uncompressed size, `allow_eopm`, input, preset dictionary and output limit;
+    (2) `lzma2Decode` for every dictionary size, input, preset dictionary and output limit;
+    (3) `rawDecode` (`lzma_raw_decoder` + one `lzma_code`) for every chain, incl. the initialisation errors;
+    (4) an LZMA2 coder after ANY sequence of earlier `code` calls (any output slicing, whatever they returned);
+    (5) any coder that `lzma_raw_decoder_init` produced, after any sequence of calls none of which returned
+        LZMA_STREAM_END (what `lzma_code` / `lzma_raw_buffer_decode` can make):
+    the checked function (partial accessors + C-level dictionary index tests, `none` = some access out of bounds) returns
+    `some` of exactly the executable function's result. -/
+theorem decoder_accesses_in_bounds :
+    (∀ (props : Lzma.Props), props.valid = true → ∀ (dictSize : Nat) (uncompSize : Option Nat) (allowEopm : Bool)
+        (input presetDict : List UInt8) (outCap : Nat),
+        Lzma.lzmaDecodeC props dictSize uncompSize allowEopm input presetDict outCap
+          = some (Lzma.lzmaDecode props dictSize uncompSize allowEopm input presetDict outCap))
+    ∧ (∀ (dictSize : Nat) (input presetDict : List UInt8) (outCap : Nat),
+        Lzma2.lzma2DecodeC dictSize input presetDict outCap = some (Lzma2.lzma2Decode dictSize input presetDict outCap))
+    ∧ (∀ (ch : Lzma2.Chain) (input : List UInt8) (outCap : Nat),
+        Lzma2.rawDecodeC ch input outCap = some (Lzma2.rawDecode ch input outCap))
+    ∧ (∀ (dictSize : Nat) (preset : List UInt8) (input : ByteArray) (calls : List Nat) (cap : Nat),
+        (calls.foldl (fun (c : Lzma2.Coder) cap => (c.code cap).2) (Lzma2.Coder.initLzma2 dictSize preset input)).codeC cap
+          = some ((calls.foldl (fun (c : Lzma2.Coder) cap => (c.code cap).2) (Lzma2.Coder.initLzma2 dictSize preset input)).code cap))
+    ∧ (∀ (last : Lzma2.LastFilter) (input : ByteArray) (c0 : Lzma2.Coder), last.init input = .ok c0 →
+        ∀ (calls : List Nat), Lzma2.callsNoEnd c0 calls → ∀ cap,
+        (calls.foldl (fun (c : Lzma2.Coder) cap => (c.code cap).2) c0).codeC cap
+          = some ((calls.foldl (fun (c : Lzma2.Coder) cap => (c.code cap).2) c0).code cap)) :=
+  ⟨fun props hv d u a i p c => Lzma2.lzmaDecode_checked props hv d u a i p c,
+   fun d i p c => Lzma2.lzma2Decode_checked d i p c,
+   fun ch i c => Lzma2.rawDecode_checked ch i c,
+   fun d p i calls cap => Lzma2.lzma2_calls_checked d p i calls cap,
+   fun last i c0 h calls hn cap => Lzma2.raw_calls_checked last i c0 h calls hn cap⟩
+
+/-- the invariant behind (4): what holds of an LZMA2 coder between any two calls — `SInv` (rep registers / dictionary
+    positions, Props/C03 `reps_invariant_lzma2`) and `A2` (probability array sized for the stored lc/lp/pb unless a
+    properties byte is still to come before the next symbol; a pending SEQ_SHORTREP/SEQ_COPY exists only in SEQ_LZMA and has
+    a valid distance; `dict.full ≤` bytes in the history; the stored lc/lp/pb valid) -/
+theorem lzma2_access_invariant (dictSize : Nat) (preset : List UInt8) (input : ByteArray) (calls : List Nat) :
+    (calls.foldl (fun (c : Lzma2.Coder) cap => (c.code cap).2) (Lzma2.Coder.initLzma2 dictSize preset input)).Acc2 :=
+  Lzma2.Coder.acc2_calls calls _ (Lzma2.Coder.acc2_init dictSize preset input)
+
+/-- non-vacuity of the instrumentation: outside the invariant the checked functions DO report `oob` — a probability read
+    from the empty array of a fresh LZMA2 coder (no properties byte seen yet), `dict_get` on an empty dictionary, and a
+    symbol decode from that fresh state (where the executable model silently reads the default 0). -/
+example : (∃ s', Lzma.rcBitC 0 (Lzma2.initLzma2 4096 [] (ByteArray.mk #[])) = .error .oob s')
+    ∧ Lzma.dictGetC (Lzma2.initLzma2 4096 [] (ByteArray.mk #[])) 0 = none
+    ∧ (∃ s', Lzma.decodeSymbolC false (Lzma2.initLzma2 4096 [] (ByteArray.mk #[0, 0, 0, 0, 0, 0, 0, 0])) = .error .oob s') :=
+  ⟨⟨_, rfl⟩, by decide, ⟨_, rfl⟩⟩
+
+/-- … and the checked whole-input functions do run: the LZMA2 end marker alone; one uncompressed chunk -/
+example : Lzma2.lzma2DecodeC 4096 [0x00] = some { ret := .streamEnd, out := [], consumed := 1 }
+    ∧ Lzma2.lzma2DecodeC 4096 [0x01, 0x00, 0x01, 0x41, 0x42, 0x00] = some { ret := .streamEnd, out := [0x41, 0x42], consumed := 6 } := by
+  decide +kernel
 
 /-! ## VLI, Block Header, Index -/
 
@@ -522,20 +639,95 @@ theorem x86_inner_loop_terminates (enc : Bool) (pc5 mask src : BitVec 32) (fuel 
 example : Bcj.x86Loop false 0x1005#32 2#32 7 0x00123456#32 = Bcj.x86Loop false 0x1005#32 2#32 2 0x00123456#32 :=
   x86_inner_loop_terminates false _ _ _ 5 (by decide) (by decide) (by decide) (by decide)
 
-/-- Every model decoder / parser is a total Lean function: each constant below is a plain `def` accepted by Lean's
-    termination checker (structural recursion on the input or on an explicit fuel; no `partial`, `unsafe` or
-    `implemented_by` — stage P scans the files), so it returns a value (a return code and positions) for EVERY byte
-    string, slicing and limit. Whether a fuel-bounded model ever runs out of fuel on a real input is a correspondence
-    question of its owner (C03/C13/C16) and is observed for the C code by the watchdog of the observation engine. -/
-theorem decoders_total :
-    (∃ f, f = @Vli.vliDecode) ∧ (∃ f, f = @Vli.vliDecodeMulti)
-    ∧ (∃ f, f = @Container.blockHeaderDecode) ∧ (∃ f, f = @Container.filterFlagsDecode)
-    ∧ (∃ f, f = @Index.decodeG) ∧ (∃ f, f = @Index.fileInfo)
-    ∧ (∃ f, f = @Lzma.lzmaDecode) ∧ (∃ f, f = @Lzma2.lzma2Decode) ∧ (∃ f, f = @Lzma2.rawDecode)
-    ∧ (∃ f, f = @XzDecode.xzDecode) ∧ (∃ f, f = @XzDecode.blockDecode)
-    ∧ (∃ f, f = @Alone.aloneDecode) ∧ (∃ f, f = @Lzip.lzipDecode) ∧ (∃ f, f = @Auto.autoDecode)
-    ∧ (∃ f, f = @LzmaCode.lzmaCode) ∧ (∃ f, f = @Bcj.x86Code) ∧ (∃ f, f = @Bcj.x86Loop) :=
-  ⟨⟨_, rfl⟩, ⟨_, rfl⟩, ⟨_, rfl⟩, ⟨_, rfl⟩, ⟨_, rfl⟩, ⟨_, rfl⟩, ⟨_, rfl⟩, ⟨_, rfl⟩, ⟨_, rfl⟩, ⟨_, rfl⟩, ⟨_, rfl⟩, ⟨_, rfl⟩,
-   ⟨_, rfl⟩, ⟨_, rfl⟩, ⟨_, rfl⟩, ⟨_, rfl⟩, ⟨_, rfl⟩⟩
+/-! ### no fuel is ever exhausted (audit finding F-03)
+
+  Several decoder / parser models recurse on an explicit `fuel : Nat` with an out-of-fuel branch `| 0, … => v₀`; Lean's
+  acceptance of such a definition says nothing about whether `v₀` ever surfaces. For each of them the theorem below shows
+  that the result does not depend on the fuel from the amount the top-level caller supplies upward:
+
+        measure(args) < fuel  →  ∀ k, f (fuel + k) args = f fuel args        and        f (F(args) + k) args = top-level def.
+
+  The recursion depth on a given input being finite, this says exactly that the out-of-fuel branch never determines the
+  result — for ALL inputs and all abstract parameters. (The direct form "result ≠ v₀", which Props/C03
+  `fuel_never_exhausted` proves for the raw LZMA1/LZMA2 decoders `symLoop` / `lzma2Loop` / `decodeBuffer`, is not available
+  here: `v₀` = `.progError` etc. is also a legitimate result of other branches, e.g. of the abstract payload decoder.)
+  The measures: a Block consumes ≥ 4 bytes, a Stream that lets the loop continue ≥ 12 bytes, an .lz member ≥ 18 bytes, an
+  Index Record ≥ 1 byte; `lzma_vli_size` shifts by 7 bits; the file-info decoder's `file_target_pos` strictly decreases
+  from one Stream to the next (measure `fiMeasure`).
+
+  STRUCTURALLY recursive decoders / parsers (no fuel at all; accepted by Lean's structural termination check, so they
+  return for every input by construction): `XzDecode.padCheck` (on the padding count), `XzDecode.matchBytes` (expected
+  bytes), `XzDecode.indexRecords` (Records still to read), `XzDecode.streamPadding` (input), `Vli.vliDecodeAux` =
+  `vliDecode` and `Vli.vliDecLoop` (input; `vliDecodeMulti` is not recursive), `Index.vliDecodeGo` (input),
+  `Index.matchBytes`, `Index.decodeRecords` (Record count; `Index.decodeG` is not recursive), `Index.trailingZeros`,
+  `Index.HashSt.records`, `Container.headerDecodeFilters` (Number of Filters), `Container.validateChainLoop`,
+  `Container.indexAppendAll`, `Lzip.idString`, `XzConcat.leadingZeros`; `XzDecode.blockDecode`, `indexHashDecode`,
+  `indexAndFooter`, `streamOne`, `Alone.aloneDecode`, `Auto.autoDecode`, `Container.blockHeaderDecode`,
+  `Container.filterFlagsDecode`, `LzmaCode.lzmaCode` are not recursive. The full table with file:line, and the fuel results
+  for the models of other properties (`Memlimit.*` of C09, `XzStruct.walkChunks/validateBlocks` of C02), is the header of
+  Lemmas/C04Fuel.lean. The x86 BCJ loop is `x86_inner_loop_terminates` above; the check's stage P additionally refuses any
+  `partial def` in the imported models. -/
+
+/-- THE FUEL OF THE CONTAINER, INDEX AND VLI DECODER MODELS IS NEVER EXHAUSTED, for every input:
+    `.xz` — Blocks of a Stream (`blocksLoop`, fuel from `streamOne`), Streams of a file (`xzLoop`, fuel from `xzCall`),
+    hence `xzCall` / `xzDecode` / `xzBufferDecode`; the concatenation machine of C16 (`XzConcat.xzLoop`, for every
+    one-Stream decoder that consumes something when it succeeds — which `XzDecode.streamOne` does); `.lz` members
+    (`lzipLoop`); the Records loop of the Index decoder (`Container.indexDecodeRecords`); `lzma_vli_size` in both models;
+    the Stream loop of the file-info decoder (`Index.streamLoop`, fuel from `Index.fileInfo`). -/
+theorem decoder_fuel_never_exhausted :
+    (∀ (E : XzDecode.Env) (fl : XzDecode.Flags) (hdr : Container.StreamFlags) (fuel : Nat) (blocks : XzDecode.HashInfo)
+        (inp : List UInt8) (outCap : Nat), inp.length < fuel →
+        ∀ k, XzDecode.blocksLoop E fl hdr (fuel + k) blocks inp outCap = XzDecode.blocksLoop E fl hdr fuel blocks inp outCap)
+    ∧ (∀ (E : XzDecode.Env) (fl : XzDecode.Flags) (fuel : Nat) (first : Bool) (inp : List UInt8) (outCap : Nat),
+        inp.length < fuel → ∀ k, XzDecode.xzLoop E fl (fuel + k) first inp outCap = XzDecode.xzLoop E fl fuel first inp outCap)
+    ∧ (∀ (E : XzDecode.Env) (fl : XzDecode.Flags) (inp : List UInt8) (outCap k : Nat),
+        XzDecode.xzLoop E fl (inp.length + 1 + k) true inp outCap = XzDecode.xzCall E fl inp outCap)
+    ∧ (∀ (X1 : XzConcat.One), XzConcat.Progress X1 → ∀ (cfg : XzConcat.Cfg) (inp : List UInt8) (k : Nat),
+        XzConcat.xzLoop X1 cfg (inp.length + 1 + k) true inp = XzConcat.xzDecode X1 cfg inp)
+    ∧ (∀ (E : XzDecode.Env) (fl : XzDecode.Flags) (first : Bool) (outCap : Nat),
+        XzConcat.Progress (fun inp => XzDecode.streamOne E fl first inp outCap))
+    ∧ (∀ (P : Alone.Payload) (cfg : Lzip.Cfg) (inp : List UInt8) (k : Nat),
+        Lzip.lzipLoop P cfg (inp.length + 1 + k) true inp = Lzip.lzipDecode P cfg inp)
+    ∧ (∀ (count : Nat) (a : Container.IndexAcc) (r1 : List UInt8) (k : Nat),
+        Container.indexDecodeRecords (r1.length + k) count a r1 = Container.indexDecodeRecords r1.length count a r1)
+    ∧ (∀ v k : Nat, (if v > Vli.VLI_MAX then 0 else Vli.vliSizeAux (8 + k) v) = Vli.vliSize v)
+    ∧ (∀ v k : Nat, (if v > Index.VLI_MAX then 0 else Index.vliSizeGo (10 + k) v 0) = Index.vliSize v)
+    ∧ (∀ (file : Array UInt8) (ml fc k : Nat),
+        Index.streamLoop file ml fc (file.size + 2 + k) true
+            { target := file.size, tempStart := 0, tempPos := 0, tempSize := 0, streamPadding := 0, combined := none }
+          = Index.streamLoop file ml fc (file.size + 2) true
+            { target := file.size, tempStart := 0, tempPos := 0, tempSize := 0, streamPadding := 0, combined := none }) :=
+  ⟨XzDecode.blocksLoop_fuel, XzDecode.xzLoop_fuel, XzDecode.xzCall_fuel,
+   fun X1 hX cfg inp k => XzConcat.xzDecode_fuel X1 hX cfg inp k, XzConcat.streamOne_progress,
+   Lzip.lzipDecode_fuel, Container.indexDecode_supplies_enough, Vli.vliSize_fuel, Index.vliSize_fuel,
+   Index.fileInfo_supplies_enough⟩
+
+/-- … and so do the fuelled loops of the Index iterator / locate models (property C13's models; `Inv` is C13's
+    well-formedness invariant of `lzma_index`, preserved by every operation: Props/C13): the listing loop with
+    `iterFuel`, the Stream search, the binary search of `lzma_index_iter_locate`. -/
+theorem index_iterator_fuel_never_exhausted :
+    (∀ {i : Index.Impl.Index}, Index.Impl.Inv i → ∀ (mode k : Nat),
+        Index.Impl.iterAllGo i mode (Index.Impl.iterFuel i + k) Index.Impl.Iter.rewind = Index.Impl.iterAll i mode)
+    ∧ (∀ {i : Index.Impl.Index}, Index.Impl.Inv i → ∀ (mode si k : Nat),
+        Index.Impl.nextStreamFrom i mode (i.streams.count + 1 + k) si = Index.Impl.nextStreamFrom i mode (i.streams.count + 1) si)
+    ∧ (∀ (g : Index.Impl.Group) (t k : Nat),
+        Index.Impl.bsearch g t (g.records.size + 1 + k) 0 g.last = Index.Impl.bsearch g t (g.records.size + 1) 0 g.last)
+    ∧ (∀ (i : Index.Index) (mode si k : Nat),
+        Index.Spec.nextStreamFrom i mode (i.length + 1 + k) si = Index.Spec.nextStreamFrom i mode (i.length + 1) si) :=
+  ⟨fun hi mode k => Index.Impl.iterAll_supplies_enough hi mode k,
+   fun hi mode si k => Index.Impl.nextStreamFrom_fuel hi mode si k,
+   Index.Impl.iterLocate_supplies_enough, Index.Spec.advance_supplies_enough⟩
+
+/-- an environment for the examples (the empty .xz file has no Block, so the payload decoder is never called) -/
+def toyEnv : XzDecode.Env :=
+  { payload := fun _ _ _ => { ret := .streamEnd, out := [], consumed := 0 }, checkSupported := fun _ => true, check := fun _ _ => [] }
+
+/-- non-vacuity: with too little fuel the out-of-fuel value DOES surface (so the theorems above are about something): two
+    concatenated empty .xz files need two units of `xzLoop` fuel; with one unit the result is the out-of-fuel LZMA_PROG_ERROR,
+    with the amount `xzCall` supplies (65) it is LZMA_STREAM_END with all 64 bytes consumed -/
+example : (XzDecode.xzLoop toyEnv { concatenated := true } 1 true (emptyXz ++ emptyXz).toList 0).ret = .progError
+    ∧ (XzDecode.xzCall toyEnv { concatenated := true } (emptyXz ++ emptyXz).toList 0).ret = .streamEnd
+    ∧ (XzDecode.xzCall toyEnv { concatenated := true } (emptyXz ++ emptyXz).toList 0).consumed = 64 := by
+  decide +kernel
 
 end XzVerif.C04
